@@ -43,3 +43,19 @@ BENIGN = [
      [("            value_elements.extend(sdv_element.resolve(symbols))\n",
        "            value_elements += sdv_element.resolve(symbols)\n")]),
 ]
+
+# --- C10: ListSdv.resolve is used through its proved contract (shared from contracts/C08b_list_flatmap.py)
+MUTANTS += [
+    ('l8-c10-list-resolve-reversed', 'C10', _LIST_SDV,
+     "        for sdv_element in self._elements:\n            value_elements.extend(",
+     "        for sdv_element in reversed(self._elements):\n            value_elements.extend(",
+     'ListSdv.resolve : loop#0 invariant[preserved]'),
+    ('l8-c10-arguments-resolved-from-another-list', 'C10', 'exactly_lib/type_val_deps/types/program/sdv/arguments.py',
+     "            self._arguments.resolve(symbols),\n",
+     "            ListSdv(self._arguments.elements[:1]).resolve(symbols),\n",
+     'ProgramSdvForCommand.resolve : ensures['),
+    ('l8-c10-arguments-resolved-as-empty-list', 'C10', 'exactly_lib/type_val_deps/types/program/sdv/arguments.py',
+     "            self._arguments.resolve(symbols),\n",
+     "            ListSdv([]).resolve(symbols),\n",
+     'ProgramSdvForCommand.resolve : ensures['),
+]
